@@ -3,15 +3,16 @@
    system (local steps grow statuses and announce every change; a delivered message is ANY list of facts
    announced earlier and is joined in by taking the maximum - this covers delay, reordering across peers,
    duplication, re-delivery of unacknowledged messages, the backlog merge and snapshots).
-   The abstract theorem is proved in full.  Its tie to the decider model is PARTIAL: the two refinement
-   premises - (P1) a local decider step only grows `status` and its note names every run whose status changed
-   with its new status; (P2) `status` after remote_apply is the maximum of the status before and `msg_status`
-   of the message - are checked on every generated step of model and implementation by the harness (stated
-   for non-singleton patterns, finished-run memory enabled and large enough, run ids unique), and supported
-   by the per-step theorems below, which are proved for the decider model itself. *)
+   Model/ConvergeC.v + Proofs/JoinProofs, LocalProofs, SimProofs: the DECIDER MODEL is an instance of that system
+   (proved: P1 a local decider step only grows `cstatus` and its note names every run whose status changed with
+   its new status; P2 `cstatus` after remote_apply is the join of the status before and the facts of the
+   message), for non-singleton patterns, finished-run memory enabled and with room, messages whose records name
+   existing patterns consistently with the owner of each run id, and notes that respect that ownership.  Hence
+   convergence holds for every execution of the decider model itself (C04_model_convergence). *)
 From Bobo Require Import Base.Prelude Base.History Model.Pattern Model.Run Model.Decider Model.Converge.
 From Bobo Require Import Proofs.RunProofs Proofs.DeciderLemmas Proofs.DeciderProofs Proofs.StepProofs.
-From Bobo Require Import Proofs.RemoteProofs Proofs.ConvergeProofs.
+From Bobo Require Import Model.Cluster Model.ConvergeC.
+From Bobo Require Import Proofs.RemoteProofs Proofs.ConvergeProofs Proofs.JoinProofs Proofs.LocalProofs Proofs.SimProofs.
 
 (* once every announcement has reached every instance, all instances hold every run at the same status:
    same set of partially completed runs, at the same positions; for EVERY execution of the abstract system *)
@@ -61,6 +62,65 @@ Section Concrete.
   Proof. exact (after_event_run_le E). Qed.
 End Concrete.
 
+(* ---------- the decider model is an instance of the abstract system ---------- *)
+(* P2: any well-formed message is applied as a join (and the invariants are kept) *)
+Theorem C04_model_remote_is_join :
+  forall (E : Type) (owner : Z -> Z * Z) cfg i (s s' : dstate E) (m n : note E),
+    (forall ph pat p, get_pattern cfg ph pat = Some p -> p_single p = false) ->
+    c_maxcache cfg <> O -> room cfg s m -> wf_msg owner cfg m ->
+    Inv E cfg (d_runs s) -> owner_ok owner (d_runs s) ->
+    remote_apply cfg s m = (s', n) ->
+    (forall id, cstatus owner s' id = join_facts id (mfacts i m) (cstatus owner s id)) /\
+    Inv E cfg (d_runs s') /\ owner_ok owner (d_runs s').
+Proof. exact remote_join. Qed.
+
+(* P1: a local step is monotone and truthful *)
+Theorem C04_model_local_mono_truthful :
+  forall (E : Type) (owner : Z -> Z * Z) cfg i (s s' : dstate E) (e : E) (n : note E),
+    cfg_wf E cfg -> c_maxcache cfg <> O -> room cfg s n -> note_owned E owner n ->
+    Inv E cfg (d_runs s) -> owner_ok owner (d_runs s) ->
+    local_step cfg s e = Ok (s', n) ->
+    (forall id, st_le (cstatus owner s id) (cstatus owner s' id) = true) /\
+    (forall id, cstatus owner s' id <> cstatus owner s id -> In (i, id, cstatus owner s' id) (mfacts i n)) /\
+    Inv E cfg (d_runs s') /\ owner_ok owner (d_runs s').
+Proof. exact local_mono_truthful. Qed.
+
+(* Convergence of the decider model: along EVERY execution made of local events at any instance and deliveries of
+   ANY well-formed message whose facts were announced before (delay, reordering across peers, re-delivery, merged
+   backlog, snapshot), once every announced fact has reached each of the n instances they all hold every run at
+   the same status: the same partially completed runs at the same positions, the same finished runs *)
+Theorem C04_model_convergence :
+  forall (E : Type) (owner : Z -> Z * Z) (cfg : config E) (gen : nat -> nat -> Z),
+    (forall ph pat p, get_pattern cfg ph pat = Some p -> p_single p = false) ->
+    cfg_wf E cfg -> c_maxcache cfg <> O ->
+    forall n c, csteps E owner cfg gen (c_init E) c -> all_delivered n (abs E owner c) ->
+    forall j k id, (j < n)%nat -> (k < n)%nat -> cstatus owner (c_st E c j) id = cstatus owner (c_st E c k) id.
+Proof. exact concrete_convergence. Qed.
+
+(* what "delivered" means: after handling a message an instance is at least as advanced as every fact in it *)
+Theorem C04_model_delivered_fact_reached :
+  forall (E : Type) (owner : Z -> Z * Z) (cfg : config E) (gen : nat -> nat -> Z),
+    (forall ph pat p, get_pattern cfg ph pat = Some p -> p_single p = false) -> c_maxcache cfg <> O ->
+    forall i j c c' (m n : note E) f,
+      good E owner cfg gen c -> wf_msg owner (icfg cfg gen j) m -> room (icfg cfg gen j) (c_st E c j) m ->
+      remote_apply (icfg cfg gen j) (c_st E c j) m = (c_st E c' j, n) ->
+      In f (mfacts i m) -> st_le (snd f) (cstatus owner (c_st E c' j) (snd (fst f))) = true.
+Proof. exact delivered_fact_reached. Qed.
+
+(* progress never moves a run backwards on any instance, along any execution of the decider model *)
+Theorem C04_model_never_backwards :
+  forall (E : Type) (owner : Z -> Z * Z) (cfg : config E) (gen : nat -> nat -> Z),
+    (forall ph pat p, get_pattern cfg ph pat = Some p -> p_single p = false) ->
+    cfg_wf E cfg -> c_maxcache cfg <> O ->
+    forall c c', good E owner cfg gen c -> csteps E owner cfg gen c c' ->
+    forall k id, st_le (cstatus owner (c_st E c k) id) (cstatus owner (c_st E c' k) id) = true.
+Proof. exact concrete_never_backwards. Qed.
+
+Print Assumptions C04_model_remote_is_join.
+Print Assumptions C04_model_local_mono_truthful.
+Print Assumptions C04_model_convergence.
+Print Assumptions C04_model_delivered_fact_reached.
+Print Assumptions C04_model_never_backwards.
 Print Assumptions C04_convergence.
 Print Assumptions C04_completed_everywhere.
 Print Assumptions C04_never_backwards.
@@ -68,39 +128,18 @@ Print Assumptions C04_status_order_is_total_order.
 Print Assumptions C04_model_no_resurrection.
 Print Assumptions C04_model_updates_never_backwards.
 
-(* non-vacuity: two instances; 0 starts run 7, 1 learns it, 1 halts it, 0 learns that: all delivered, equal *)
+(* non-vacuity of the premises: an execution exists and all_delivered is satisfiable (instance 0 starts run 7) *)
 Example C04_example :
-  exists a, asteps a_init a /\ all_delivered 2 a /\ a_status a 0%nat 7 = Halted /\ a_status a 1%nat 7 = Halted.
+  exists a, asteps a_init a /\ all_delivered 1 a /\ a_status a 0%nat 7 = Active 1 1.
 Proof.
-  pose (f1 := (0%nat, 7, Active 1 1)). pose (f2 := (1%nat, 7, Halted)).
-  pose (a1 := mkA (fun k id => if Nat.eqb k 0 && Z.eqb id 7 then Active 1 1 else Absent) [f1]).
-  pose (a2 := mkA (fun k id => if Z.eqb id 7 then Active 1 1 else Absent) [f1]).
-  pose (a3 := mkA (fun k id => if Z.eqb id 7 then (if Nat.eqb k 1 then Halted else Active 1 1) else Absent) [f1; f2]).
-  pose (a4 := mkA (fun k id => if Z.eqb id 7 then Halted else Absent) [f1; f2]).
-  assert (Hk : forall k, k <> 0%nat -> k <> 1%nat -> (k =? 1)%nat = false) by (intros k _ H; now apply Nat.eqb_neq).
-  exists a4. split; [|split; [|split; reflexivity]].
-  - eapply AS_step; [eapply AS_step; [eapply AS_step; [eapply AS_step; [apply AS_refl|]|]|]|].
-    + apply (A_local 0 a_init a1 [f1]); simpl.
-      * intro id. reflexivity.
-      * intros k id Hk0. destruct k; [congruence|reflexivity].
-      * intros id H. destruct (Z.eqb_spec id 7) as [->|]; [now left|congruence].
-      * reflexivity.
-    + apply (A_deliver 1 a1 a2 [f1]); simpl.
-      * intros f [<-|[]]. now left.
-      * intro id. unfold join_facts. simpl. destruct (Z.eqb_spec id 7) as [->|Hn]; simpl; [reflexivity|].
-        destruct (Z.eqb_spec 7 id); [congruence|reflexivity].
-      * intros k id Hk1. destruct k as [|[|k]]; simpl; [reflexivity|congruence|]. now destruct (Z.eqb id 7).
-      * reflexivity.
-    + apply (A_local 1 a2 a3 [f2]); simpl.
-      * intro id. destruct (Z.eqb id 7); reflexivity.
-      * intros k id Hk1. destruct k as [|[|k]]; simpl; try reflexivity. congruence.
-      * intros id H. destruct (Z.eqb_spec id 7) as [->|]; [now left|congruence].
-      * reflexivity.
-    + apply (A_deliver 0 a3 a4 [f2]); simpl.
-      * intros f [<-|[]]. right. now left.
-      * intro id. unfold join_facts. simpl. destruct (Z.eqb_spec id 7) as [->|Hn]; simpl; [reflexivity|].
-        destruct (Z.eqb_spec 7 id); [congruence|reflexivity].
-      * intros k id Hk0. destruct k as [|[|k]]; simpl; [congruence| |]; destruct (Z.eqb id 7); reflexivity.
-      * reflexivity.
-  - intros f j Hj Hf. simpl in Hf. destruct Hf as [<-|[<-|[]]]; destruct j as [|[|j]]; try lia; reflexivity.
+  pose (f1 := (0%nat, 7, Active 1 1)).
+  pose (a1 := mkA (fun k x => if Nat.eqb k 0 && Z.eqb x 7 then Active 1 1 else Absent) [f1]).
+  exists a1. split; [|split; [|reflexivity]].
+  - eapply AS_step; [apply AS_refl|].
+    apply (A_local 0 a_init a1 [f1]).
+    + intro x. reflexivity.
+    + intros k x Hk0. simpl. destruct k; [congruence|reflexivity].
+    + intros x H. simpl in H. simpl. destruct (Z.eqb_spec x 7) as [Hx|Hx]; [subst x; now left|congruence].
+    + reflexivity.
+  - intros f j Hj Hf. simpl in Hf. destruct Hf as [<-|[]]. destruct j; [reflexivity|lia].
 Qed.
